@@ -551,7 +551,7 @@ def unit_period():
 
 def run_task(task):
     k = task[0]
-    if k in ("engine-chain", "engine-proc", "engine-tb-order", "engine-lhs-selector", "engine-castable-set", "kernel-agrees", "canary-kernel-agrees"):
+    if k in ("engine-chain", "engine-proc", "engine-tb-order", "engine-lhs-selector", "engine-castable-set", "engine-clock-phase-zero", "kernel-agrees", "canary-kernel-agrees"):
         from . import c08_engine
         return c08_engine.run_task(task)
     if k == "add-clock":
